@@ -55,7 +55,7 @@ fn single(op: Op, rng: &mut Rng) -> Tx {
             if crate::ops::has_force_form(&op) { Runner::Force } else { Runner::WithErr }
         }
     };
-    Tx { runner, ops: vec![op], f1: vec![], f2: vec![] }
+    Tx { runner, ops: vec![op], f1: vec![], f2: vec![], f1_attempt: 0 }
 }
 
 /// Next step of a history, drawn while looking at the current state.
@@ -270,7 +270,7 @@ fn run_one(cfg: &Cfg, tier: Tier, i: u64, seed: u64, c: &mut Counters) -> Vec<Vi
         }
         Outcome::Panic(m) => {
             c.inc("history_panics");
-            c.sample(|| json!({"seed": seed, "panic": m}));
+            c.note("history_panics", || format!("seed {seed}: {m}"));
             let mut hh = h.clone();
             hh.steps = rec.lock().unwrap().clone();
             out.push(Violation { property: cfg.prop.into(), class: "panic".into(), message: format!("a public call panicked during a single-client history (last step {:?}): {m}", hh.steps.last()), seed, run: i, payload: serde_json::to_value(Payload { flavour, history: hh }).unwrap(), known: None });
